@@ -375,6 +375,35 @@ async fn api_round_trips(p: &EpParams) -> (EpReport, u64) {
             }
         }
     }
+    // a name inside a StreamingPull control message: a subscription name that differs from the
+    // stream's own in the project (same ID) does not denote the stream's subscription
+    {
+        let (tp, tq) = ("projects/p/topics/sx", "projects/q/topics/sx");
+        let (sp, sq) = ("projects/p/subscriptions/sx", "projects/q/subscriptions/sx");
+        let _ = cx.create_topic(tp).await;
+        let _ = cx.create_topic(tq).await;
+        let _ = cx.create_sub(sp, tp, 10).await;
+        let _ = cx.create_sub(sq, tq, 10).await;
+        let _ = cx.publish(tq, &[Msg::tagged("q0")]).await;
+        let lease: Vec<String> = cx.pull(sq, 1, true).await.map(|d| d.into_iter().map(|d| d.ack_id).collect()).unwrap_or_default();
+        if let Ok(mut h) = cx.open_stream(sq, 0).await {
+            h.send_raw(deltio::pubsub_proto::StreamingPullRequest { subscription: sp.to_string(), ack_ids: lease.clone(), ..Default::default() });
+            w.settle().await;
+            w.advance(std::time::Duration::from_secs(1)).await;
+            n += 1;
+            match h.ended() {
+                Some(c) if c == INVALID_ARGUMENT => rep.inc("control_message_naming_another_project_refused"),
+                other => rep.viol("C18", "C18:accepted-as-name:StreamingPull.control:other-project", format!("a control message on the stream of {:?} that names {:?} was not refused with INVALID_ARGUMENT (stream: {:?})", sq, sp, other)),
+            }
+            h.abort();
+        }
+        for x in [sp, sq] {
+            let _ = cx.delete_sub(x).await;
+        }
+        for x in [tp, tq] {
+            let _ = cx.delete_topic(x).await;
+        }
+    }
     // "accepted only if": every RPC that takes a name refuses a string outside the grammar, whatever
     // else the request carries (also when it carries nothing: no ack IDs, no messages), and answers
     // NOT_FOUND - not OK - for a well-formed name that names nothing
